@@ -24,6 +24,13 @@ G  every TLC-enumerated document, with the relations the model demands, is concr
    list item it was opened in; the machine's relations are the exact expectation, DRIFT); the lines AFTER the closer
    are ordinary lines: their sections / items are statement-backed.  The machine's persistent MODE (pre_parse, the
    begline counter) obeys the law "all constructs closed => initial mode" (ModeOK, every universe).
+   Universe QW (round 9): the WHITE SPACE AROUND THE TOKENS of a structure line -- after the closing '=' run of a heading
+   (nothing, blank, TAB, blank+TAB, CR, form feed, vertical tab, U+00A0, U+3000), between the '=' runs and the title,
+   after a list marker (none, blank, TAB, two blanks), at the end of list / paragraph lines, after '----' -- as SPELLING
+   VARIANTS of the line types (line field ws; ParserRefDoc!HeadWs / BlankWs state as data which characters the tokenizer
+   takes as white space there; 14 spelling schemes of Gen_ParserRef!WsSchemes x every document of <= 3 lines).  The
+   relations demanded are those of the canonical spelling.  Strict set (blank, TAB, CR) = statement-backed; the
+   characters only Python's white-space class knows = DRIFT.  V spells 30 % of its documents with random strict white space.
 V  seeded random longer documents (<= 10 headings, <= 12 list lines, depth <= 4, rules,
    paragraphs, blanks, fillers) are parsed by the real code, the extracted relations are
    recorded and validated by TLC against ParserRef (Trace_ParserRef).
@@ -119,6 +126,22 @@ def span_line(ln, w) -> str:
     return SPANS[ln["c"]][1] + " " + w if ln["b"] else w + SPANS[ln["c"]][1]
 
 
+# (round 9) white space around the tokens of a structure line: the characters of the atoms of ParserRefDoc (WsStrict /
+# WsExotic); a line with the field ws is spelled with them, a line without it has the canonical spelling
+WS_CHARS = {"SP": " ", "TAB": "\t", "CR": "\r", "FF": "\f", "VT": "\v", "NBSP": "\u00a0", "IDSP": "\u3000"}
+WS_STRICT = ("SP", "TAB", "CR")
+WS_NAMES = {"SP": "a blank", "TAB": "a TAB", "CR": "a carriage return (CRLF text)", "FF": "a form feed", "VT": "a vertical tab",
+            "NBSP": "U+00A0", "IDSP": "U+3000"}
+
+
+def ws_of(ln):
+    """(a, b, e): the white space after the opening '=' run / list marker, before the closing '=' run, at the line end."""
+    ws = ln.get("ws")
+    if ws is None:
+        return " ", " ", ""
+    return tuple("".join(WS_CHARS[x] for x in ws.get(k, ())) for k in ("a", "b", "e"))
+
+
 def spell(doc, fill) -> str:
     """doc: list of line records; fill: {line index (0-based): (filler, before?)}."""
     out = []
@@ -132,21 +155,22 @@ def spell(doc, fill) -> str:
             out.append({"L": "".join(ln.get("p", ())) + " ", "P": "", "I": " "}[t] + w + span_open(ln))
         elif t in ("H", "L"):
             body = w if not f else (f"{f} {w}" if before else f"{w} {f}")
+            a, b, e = ws_of(ln)
             if t == "H":
-                out.append("=" * ln["l"] + " " + body + " " + "=" * ln["l"])
+                out.append("=" * ln["l"] + a + body + b + "=" * ln["l"] + e)
             else:
-                out.append("".join(ln["p"]) + " " + body)
+                out.append("".join(ln["p"]) + a + body + e)
         elif t == "P":
             if not inline and (f and "\n" in f or f.startswith(" ")):
                 out.append(f + "\n" + w if before else w + "\n" + f)
             else:
-                out.append(w if not f else (f"{f} {w}" if before else f"{w} {f}"))
+                out.append((w if not f else (f"{f} {w}" if before else f"{w} {f}")) + ws_of(ln)[2])
         elif t == "I":
             out.append(" " + (w if not f else (f"{f} {w}" if before else f"{w} {f}")))
         elif t == "O":
             out.append(OPENERS[ln["c"]] + w)
         elif t == "R":
-            out.append("----")
+            out.append("----" + ws_of(ln)[2])
         else:
             out.append("")
     return "\n".join(out) + "\n"
@@ -410,6 +434,8 @@ def core(rel, doc):
 def line_text(ln, i):
     w = f"w{i + 1}"
     t = ln["t"]
+    if "ws" in ln:
+        return spell([{"t": "B"}] * i + [ln], {}).split("\n")[i]
     return ("=" * ln["l"] + " " + w + " " + "=" * ln["l"] if t == "H" else "".join(ln["p"]) + " " + w + span_open(ln) if t == "L"
             else " " + w + span_open(ln) if t == "I" else OPENERS[ln["c"]] + w if t == "O" else w + span_open(ln) if t == "P"
             else span_line(ln, w) if t in ("X", "C") else "----" if t == "R" else "")
@@ -517,12 +543,21 @@ def judge(o: Outcome, case, name, text, rel, err, origin):
                       "note": "beyond the statement" + (par_why(doc, exp, rel, text) if cls == "par" else "")})
         return False
     cls = diff_class(cexp, crel)
+    if case.get("wsx") or ws_exotic(doc):
+        # white space that only Python's \s knows (form feed, vertical tab, U+00A0, U+3000): MediaWiki itself does not
+        # trim it -- the tokenizer fact ParserRefDoc!HeadWs says more than the statement
+        o.note_drift({"origin": origin, "text": text, "doc": doc, "differs_in": cls, "expected": cexp[cls], "got": crel[cls],
+                      "note": "white space outside the strict set (blank, TAB, CR) around the tokens of a heading line: "
+                              "beyond the statement" + ws_why(doc, rel)})
+        return False
     c = {"origin": origin, "variant": name, "text": text, "doc": doc,
          "expected": exp, "got": rel, "differs_in": cls}
     why = (f"parse({text!r}): relation '{cls}' extracted from the real tree is {crel[cls]!r}; "
            f"the nesting model demands {cexp[cls]!r}")
     if cls == "par":
         why += par_why(doc, cexp, crel, text)
+    if has_ws(doc):
+        why += ws_why(doc, rel)
     if case.get("nest"):
         why += NEST_WHY
     if case.get("asis") is not None and rel == case["asis"]:
@@ -531,7 +566,7 @@ def judge(o: Outcome, case, name, text, rel, err, origin):
         c["sdoc"] = case["sdoc"]
         o.violation(c, why + ("" if case.get("nest") else struct_why(case["sdoc"], case.get("flag"))), cls=origin + ":struct:" + cls)
     else:
-        o.violation(c, why, cls=origin + ":" + cls)
+        o.violation(c, why, cls=origin + (":ws:" if has_ws(doc) else ":") + cls)
     return False
 
 
@@ -612,7 +647,51 @@ def struct_why(sdoc, flag) -> str:
     return msg
 
 
+def ws_names(atoms) -> str:
+    return " + ".join(WS_NAMES[x] for x in atoms) if atoms else "nothing"
+
+
+def ws_why(doc, rel) -> str:
+    """Names the structure lines with a white-space spelling that did not become the node of their line type."""
+    out = []
+    for i, ln in enumerate(doc):
+        ws = ln.get("ws")
+        if ws is None:
+            continue
+        k = rel["own"][i].get("k")
+        if ln["t"] == "H" and not (k == f"LEVEL{ln['l']}" and rel["own"][i].get("w") == "largs"):
+            out.append(f"heading line {i + 1} ({line_text(ln, i)!r}: {ws_names(ws['e'])} after the closing '=' run, "
+                       f"{ws_names(ws['a'])} / {ws_names(ws['b'])} around the title) did not become a section node -- it was "
+                       f"left as plain text, so every line up to the next recognised heading (list lines, paragraphs, deeper "
+                       f"headings) is in the wrong section: the tokenizer's heading-line recogniser does not accept this white "
+                       f"space; a heading line is a heading whatever white space surrounds its tokens (ParserRefDoc!HeadWs)")
+        elif ln["t"] == "L" and k != "LIST_ITEM":
+            out.append(f"list line {i + 1} ({line_text(ln, i)!r}: {ws_names(ws['a'])} after the marker, {ws_names(ws['e'])} at the "
+                       f"end of the line) did not become a list item")
+    if not out:
+        spelled = [f"line {i + 1} {line_text(ln, i)!r}" for i, ln in enumerate(doc) if "ws" in ln and ln["ws"] != {"a": ["SP"] if ln["t"] in "HL" else [], "b": ["SP"] if ln["t"] == "H" else [], "e": []}]
+        return (" -- the document differs from its canonical spelling only in the white space around the tokens of "
+                + ", ".join(spelled[:3]) + ": the relations must not depend on it") if spelled else ""
+    return " -- " + "; ".join(out[:2]) + (f" (and {len(out) - 2} more)" if len(out) > 2 else "")
+
+
+def has_ws(doc) -> bool:
+    return any("ws" in ln for ln in doc)
+
+
+def ws_exotic(doc) -> bool:
+    return any(x not in WS_STRICT for ln in doc for v in ln.get("ws", {}).values() for x in v)
+
+
 def variants_for(rng, doc, n_random, all_fillers):
+    if has_ws(doc):
+        # (round 9) spelling variants: the document as its ws fields spell it, filler-free and with random fillers
+        # (the canonical spelling of the same document is a case of the other universes)
+        v = [("ws", spell(doc, {}))]
+        sl = slots(doc)
+        for r in range(n_random if sl else 0):
+            v.append((f"wsmix{r}", spell(doc, {i: pick(rng, doc[i]) for i in sl if rng.random() < 0.8})))
+        return v
     v = [("plain", spell_plain(doc))]
     sl = slots(doc)
     if not sl:
@@ -804,8 +883,25 @@ def validate_batch(batch):
     return r, v[0]["bad"]
 
 
+def random_ws(rng, doc):
+    """(round 9) A random white-space spelling (strict set only) for the heading / list / rule / paragraph lines."""
+    trail = lambda chars, hi: [rng.choice(chars) for _ in range(rng.choice((0, 1, 1, 2)[:hi + 2]))]
+    out = []
+    for ln in doc:
+        ln = dict(ln)
+        if ln["t"] in ("H", "L", "R", "P") and "o" not in ln and rng.random() < 0.7:
+            if ln["t"] == "H":
+                e = rng.choice((["CR"], ["SP", "CR"])) if rng.random() < 0.2 else trail(("SP", "TAB"), 2)
+                ln["ws"] = {"a": trail(("SP", "TAB"), 2), "b": trail(("SP", "TAB"), 2), "e": e}
+            else:
+                ln["ws"] = {"a": trail(("SP", "TAB"), 2) if ln["t"] == "L" else [], "b": [], "e": trail(("SP", "TAB"), 2)}
+        out.append(ln)
+    return out
+
+
 def run_v(o: Outcome, n):
     rng = random.Random(common.seed() * 104729 + 202)
+    rng_ws = random.Random(common.seed() * 104729 + 909)
     items = []
     for idx in range(n):
         doc = random_doc(rng)
@@ -813,6 +909,8 @@ def run_v(o: Outcome, n):
             doc = [{"t": "P"}]
         if rng.random() < 0.25:
             doc = add_span(rng, doc)
+        if rng_ws.random() < 0.3:
+            doc = random_ws(rng_ws, doc)
         fill = {i: pick(rng, doc[i]) for i in slots(doc) if rng.random() < 0.5}
         if rng.random() < 0.35:
             # one or two lines carry a random STRUCTURED filler (nesting depth <= 3, may span lines) after their word;
@@ -877,6 +975,8 @@ def judge_v(o, case, text, rel):
            f"the nesting model demands {cexp[cls]!r}")
     if cls == "par":
         why += par_why(pdoc, cexp, crel, text)
+    if has_ws(pdoc):
+        why += ws_why(pdoc, rel)
     if case.get("nest"):
         why += NEST_WHY
     if case["asis"] is not None:
@@ -909,6 +1009,11 @@ def run(tier: str) -> int:
               "expectation = the machine's relations, the statement accepts both readings of the construct (RefAccept), the "
               "machine's persistent mode obeys ModeOK; V puts one such construct (0-2 continuation lines) into 25 % of its "
               "documents; V also puts random structured fillers (depth <= 3) into 35 % of its documents. "
+              "Universe W (round 9): every document of <= 3 lines over {H2, H3, H4, *, **, #, rule, paragraph} x 14 white-space "
+              "spelling schemes (after the end token of a heading: nothing / blank / TAB / blank+TAB / CR / FF / VT / U+00A0 / "
+              "U+3000, mixed by line; between the '=' runs and the title; after a list marker; at the end of list / paragraph "
+              "lines; after ----), expectation = the relations of the canonical spelling; V spells 30 % of its documents with "
+              "random blanks / TABs / CR around the tokens. "
               "distinct_nontrivial counts distinct relation records (own, sec, item, "
               "lst, counts) demanded / observed.")
     o.assumptions = [
@@ -923,6 +1028,10 @@ def run(tier: str) -> int:
         "closed on a later line) is one balanced filler; its own lines carry no catalogue filler; whether it continues or ends "
         "the list item it was opened in is outside the statement (both readings accepted, the machine's is the DRIFT "
         "expectation); every line after the closer is an ordinary line (statement-backed as everywhere else)",
+        "white space around the tokens of a structure line (field ws) is a spelling variant: the relations do not depend on it; "
+        "which characters count is a tokenizer fact stated as data in ParserRefDoc (HeadWs = Python's \\s after the end token of a "
+        "heading and around its title; blank / TAB elsewhere); blank, TAB and CR are statement-backed (VIOLATION), form feed, "
+        "vertical tab, U+00A0 and U+3000 are DRIFT (MediaWiki does not trim them)",
         "structured fillers stand after the marker word; inside them only words, blanks, newlines, * / # at a line start, "
         "the argument separator and further constructs occur (no rule, heading or table syntax); links are not nested in links",
     ]
@@ -930,11 +1039,12 @@ def run(tier: str) -> int:
         cfgs = ["Gen_ParserRef_TH.cfg", "Gen_ParserRef_TL.cfg", "Gen_ParserRef_TM.cfg", "Gen_ParserRef_TM6.cfg", "Gen_ParserRef_QM.cfg",
                 "Gen_ParserRef_QF.cfg", "Gen_ParserRef_QS1.cfg", "Gen_ParserRef_QS2.cfg", "Gen_ParserRef_TS3.cfg",
                 "Gen_ParserRef_QI.cfg", "Gen_ParserRef_TI.cfg", "Gen_ParserRef_TI5.cfg", "Gen_ParserRef_QFI.cfg", "Gen_ParserRef_TO.cfg",
-                "Gen_ParserRef_TSP.cfg"]
+                "Gen_ParserRef_TSP.cfg", "Gen_ParserRef_QW.cfg"]
     else:
         cfgs = ["Gen_ParserRef_QH.cfg", "Gen_ParserRef_QL.cfg", "Gen_ParserRef_QM.cfg", "Gen_ParserRef_QF.cfg",
                 "Gen_ParserRef_QS1.cfg", "Gen_ParserRef_QS2.cfg",
-                "Gen_ParserRef_QI.cfg", "Gen_ParserRef_QFI.cfg", "Gen_ParserRef_QO.cfg", "Gen_ParserRef_QSP.cfg"]
+                "Gen_ParserRef_QI.cfg", "Gen_ParserRef_QFI.cfg", "Gen_ParserRef_QO.cfg", "Gen_ParserRef_QSP.cfg",
+                "Gen_ParserRef_QW.cfg"]
     # the Demo for the structured fillers (runs beside G): TLC itself finds a counterexample on a machine whose
     # begline switch does not count its nesting
     with ThreadPoolExecutor(3) as ex:
@@ -1026,7 +1136,21 @@ def selftest() -> int:
         obs["nitem"] -= 1
         _, bad1 = validate_batch([{"doc": pdoc, "obs": obs}])
         span = [len(bad0), len(bad1), bool(bad1 and all(core(a, pdoc) != core(obs, pdoc) for a in bad1[0]["acc"]))]
+        # (round 9) a white-space spelling: the heading line ends with a TAB, the list marker is followed by nothing; the
+        # record "the heading line stayed plain text" is rejected
+        wdoc = [{"t": "H", "l": 2, "ws": {"a": ["SP"], "b": [], "e": ["SP", "TAB"]}},
+                {"t": "L", "p": ["*"], "ws": {"a": [], "b": [], "e": ["TAB"]}}, {"t": "H", "l": 3, "ws": {"a": [], "b": [], "e": ["CR"]}}]
+        root, err, _ = pt.parse(ctx, spell(wdoc, {}))
+        rel = relations(root, wdoc)
+        _, bad0 = validate_batch([{"doc": wdoc, "obs": rel}])
+        obs = json.loads(json.dumps(rel))
+        obs["own"][0] = dict(NOOWN); obs["sec"][1] = 0; obs["sec"][2] = 0; obs["nsec"] = 1; obs["par"][1] = "ROOT"; obs["par"][0] = "-"
+        _, bad1 = validate_batch([{"doc": wdoc, "obs": obs}])
+        wsr = [len(bad0), len(bad1)]
         ctx.close_db_conn()
+    print("white-space spelling (intact, heading line recorded as plain text):", wsr)
+    if wsr != [0, 1]:
+        return 1
     print("bad counts (intact, corrupted; plain, structured):", bad_counts, "; open block before the first heading "
           "(intact, corrupted parent, recognised as TitleLoopNeedsSection):", nest, "; construct that spans lines "
           "(intact, item after the closer lost, outside both accepted readings):", span)
